@@ -162,11 +162,20 @@ func canonAddr(a ssa.Value, d int) string {
 			}
 			return "alloc:" + al.Name() + "." + FieldAddrName(x)
 		}
+		switch x.X.(type) {
+		case *ssa.FieldAddr, *ssa.IndexAddr:
+			// field of an addressable struct value (no pointer hop)
+			return canonAddr(x.X, d+1) + "." + FieldAddrName(x)
+		}
 		return canon(x.X, d+1) + "." + FieldAddrName(x)
 	case *ssa.IndexAddr:
 		idx := canon(x.Index, d+1)
 		if isRangeIdx(x.Index) {
 			idx = "*"
+		}
+		switch x.X.(type) {
+		case *ssa.FieldAddr, *ssa.IndexAddr:
+			return canonAddr(x.X, d+1) + "[" + idx + "]"
 		}
 		return canon(x.X, d+1) + "[" + idx + "]"
 	case *ssa.Global:
